@@ -31,7 +31,7 @@ def plan(tier, seed):
 
 def floors(tier):
     strata = ["%s/%s" % (a, c) for a in ("overlap", "simple") for c in ("fits", "split-2", "split-3+")] + \
-             ["overlap/wide-label", "overlap/le2-labels-unfit", "none/no-split-expected", "overlap/no-split-expected", "engine-reported-layering", "engine-reconfigured", "engine-recompute-after-in-place-changes", "engine-with-another-engine-alive"]
+             ["overlap/wide-label", "overlap/le2-labels-unfit", "none/no-split-expected", "overlap/no-split-expected", "engine-reported-layering", "engine-reconfigured", "engine-recompute-after-in-place-changes", "engine-with-another-engine-alive", "engine-with-stale-labels"]
     return {"evaluations": 800, "strata": strata, "events": {"Distributor.distribute": 800, "Force.compute": 300}, "distinct_nontrivial": 150}
 
 
@@ -111,6 +111,18 @@ def run_engine(ctx, mon, labels, opts, tag, first=None):
         f.set_options(dict(opts))
         ctx.stratum("engine-reconfigured", generated=1, judged=1, held=1)
     lst = WL.make_nodes(labels)
+    if hash(repr(labels[:2])) % 5 == 2 and len(labels) <= 60:
+        # the label objects come out of an earlier layout that had to split (stale stubs, layer indices): whatever this layout
+        # decides, no label may keep a stub that is in no layer
+        g = Force({"minPos": 0, "maxPos": 150, "density": 0.3, "stubWidth": 2})
+        g.nodes(lst)
+        try:
+            g.compute()
+        except Exception:
+            pass
+        mon.drain()
+        case["stale_labels"] = True
+        ctx.stratum("engine-with-stale-labels", generated=1, judged=1, held=1)
     f.nodes(lst)
     if hash(repr(labels[:2])) % 4 == 0:
         # another engine is constructed and configured between configuring this one and its compute(); it stays alive
